@@ -94,6 +94,87 @@ def i_is_explored(nb, acc):
     return canon(nb, s["rv"]["op"]).startswith("explored(arg1.tree")
 
 
+def directive_pass_table(prog, rep, R, pf):
+    """One iteration of parse_file's pass over all tokens, as a decision table: a CompilerDirective and every kind of
+    ConditionalDirective gets exactly one LocalLogicalLine (of its own type, holding this token's index) unless the token was
+    attributed to a line by next_token; no other token gets one; no other condition decides."""
+    import re as _re
+    pushes = [c for c in pf.calls() if c.callee == "alloc::vec::Vec::push" and "LocalLogicalLine" in pf.locals[c.args[1]["place"]["l"]]["ty"]] if True else []
+    loops = [(h, L) for h, L in pf.loops().items() if any(c.bb in L for c in pushes)]
+    loops.sort(key=lambda x: len(x[1]))
+    if not rep.check(bool(pushes) and bool(loops), R, "anchor:directive-pass", "parse_file has no loop that pushes LocalLogicalLine values for directive tokens"):
+        return
+    h, L = loops[0]
+    nx = [c for c in pf.calls() if c.bb == h and (c.callee or "").endswith("Iterator::next")]
+    if not rep.check(len(nx) == 1, R, "anchor:directive-pass-iterator", "the directive pass is not driven by a single Iterator::next"):
+        return
+    src = canon(pf, nx[0].args[0])
+    m = _re.match(r"^into_iter\((filter\()?enumerate\(iter\(arg1\)\)(,closure\{.*\}\))?\)$", src)
+    rep.check(bool(m), R, "directive-pass-over-all-tokens", "the directive pass iterates %s instead of every (index, token) of the token slice (optionally filtered by `!attributed_directives.contains(index)`)" % src,
+              instance={"iterates": "tokens.iter().enumerate()" + (".filter(!attributed)" if m and m.group(1) else "")})
+    if m and m.group(1):
+        fl = [b for b in prog.closures_of(P + "parse_file") if any(c.callee == "std::collections::hash::set::HashSet::contains" for c in b.calls())]
+        ok = len(fl) == 1
+        if ok:
+            t = Table(prog, fl[0])
+            ok = all((res.kind == "sym" and str(res.a).startswith("!")) or (res.kind == "const") for _, res in t.rows) and len(t.rows) == 1
+        rep.check(ok, R, "directive-filter=!attributed", "parse_file no longer filters the directive pass by `!attributed_directives.contains(index)`")
+    sw = nx[0].t["target"]
+    tt = pf.blocks[sw]["term"]
+    some = ([tb for v, tb in tt["targets"] if v == 1] or [tt["otherwise"]])[0]
+    try:
+        tb = Table(prog, pf, start=some, stop={h}, inline=1)
+    except TooComplex as e:
+        rep.fail(R, "directive-pass-table", "one iteration of the directive pass is not a loop-free classifier: %s" % e)
+        return
+    cdk = prog.adts.get(LANG + "ConditionalDirectiveKind")
+    allk = {v["name"] for v in cdk["variants"]} if cdk else set()
+    bad = []
+    seen = {"CompilerDirective": 0, "ConditionalDirective": set(), "other": 0}
+    for (cons, _res), calls in zip(tb.rows, tb.calls):
+        tty = [c for c in cons if c[1].endswith(".token_type") or c[1].endswith("get_token_type(" ) or "token_type" in c[1].split("@")[-1]]
+        kind = None
+        for c in cons:
+            if c[0] == "is" and c[2] in ("CompilerDirective", "ConditionalDirective") and "@ConditionalDirective" not in c[1]:
+                kind = c[2]
+        sub = [c[2] for c in cons if c[0] == "is" and "@ConditionalDirective.0" in c[1]]
+        excluded = set()
+        for c in cons:
+            if c[0] == "not" and "@ConditionalDirective.0" in c[1]:
+                excluded |= set(c[2])
+        if kind == "ConditionalDirective" and not sub and allk and excluded >= allk:
+            continue            # infeasible: every kind excluded
+        conds = [(c[1], c[2]) for c in cons if c[0] == "cond"]
+        attributed = [v for k, v in conds if k.startswith("contains(") or "contains(" in k]
+        other = [k for k, v in conds if "contains(" not in k]
+        ps = [a for n, a in calls if n == "alloc::vec::Vec::push" and a and a[-1].startswith("LocalLogicalLine(")]
+        if other:
+            bad.append(("an additional condition decides: %s" % other[:2], kind, sub))
+            continue
+        if attributed and attributed[0] != 0:
+            if ps:
+                bad.append(("an attributed directive gets a second line", kind, sub))
+            continue
+        if kind in ("CompilerDirective", "ConditionalDirective"):
+            # (the `vec![token_index]` field is initialised through a raw box in MIR: its element is not visible to the table)
+            okp = len(ps) == 1 and ps[0][-1].rstrip(")").endswith(kind)
+            if not okp:
+                bad.append(("no line / wrong line: %s" % [x[-1][-60:] for x in ps], kind, sub))
+            if kind == "CompilerDirective":
+                seen["CompilerDirective"] += 1
+            else:
+                seen["ConditionalDirective"] |= set(sub)
+        else:
+            seen["other"] += 1
+            if ps:
+                bad.append(("a non-directive token gets a directive line", kind, sub))
+    complete = seen["CompilerDirective"] >= 1 and (not allk or seen["ConditionalDirective"] >= allk) and seen["other"] >= 1
+    rep.check(not bad and complete, R, "directive-pass-table",
+              "one step of parse_file's directive pass deviates from `CompilerDirective / every ConditionalDirective kind -> exactly one line of its own type with this token; other tokens -> none; only "
+              "`attributed_directives.contains(index)` may skip`: %s%s" % (bad[:3], "" if complete else "; kinds covered: %s" % {k: (sorted(v) if isinstance(v, set) else v) for k, v in seen.items()}),
+              where="%s:%d" % (pf.file, pf.line), instance={"paths": len(tb.rows), "conditional_kinds_covered": sorted(seen["ConditionalDirective"]), "deviations": [str(x) for x in bad[:3]]})
+
+
 def check_c14(prog, rep, tier, cfg):
     pass_exhaustiveness(prog, rep, "C14.f")
     # ---------------------------------------------------------------- C14.a cursor writers & push-before-advance
@@ -170,45 +251,7 @@ def check_c14(prog, rep, tier, cfg):
     rep.check({c.body.npath for c in allins} == {LLP + "::next_token"}, R, "who-inserts:attributed_directives", "attributed directive set is filled in %s" % sorted({short(c.body.npath) for c in allins}))
     pf = prog.body(P + "parse_file")
     if rep.check(pf is not None, R, "anchor:parse_file", "parse_file not found"):
-        lines = []
-        for bb, i, s in pf.stmts():
-            if s["k"] == "assign" and s["rv"]["k"] == "aggregate" and norm(s["rv"].get("adt", "")) == P + "LocalLogicalLine":
-                ops = dict(zip(s["rv"]["fields"], s["rv"]["ops"]))
-                lt = Origins(pf).of_operand(ops["line_type"])
-                lines.append((bb, sorted(x[3].split("::")[-1] for x in lt if x[0] == "agg")))
-        kinds = sorted(k[0] if k else "?" for _, k in lines)
-        rep.check(kinds == ["CompilerDirective", "ConditionalDirective", "ConditionalDirective", "ConditionalDirective"], R, "directive-lines-created",
-                  "parse_file's directive pass creates lines of types %s (expected one CompilerDirective arm and three ConditionalDirective arms)" % kinds, instance={"line_types": kinds})
-        # a directive's line may depend on nothing but its kind: no extra guard on the arms
-        from panic import dominating_conditions
-        for bb, kinds2 in lines:
-            conds = dominating_conditions(pf, bb)
-            extra = []
-            for c in conds:
-                if c[0] == "call" and c[1].split("::")[-1] in ("is_if", "is_end", "is_else") and LANG + "ConditionalDirectiveKind" in c[1]:
-                    continue
-                extra.append(c[1] if c[0] == "call" else "%s(%s,%s)" % (c[1], canon(pf, c[2]), canon(pf, c[3])))
-            rep.check(not extra, R, "directive-line-unconditional:%s:bb%d" % (kinds2[0] if kinds2 else "?", bb),
-                      "the line for a skipped %s token is created only under an additional condition %s — a directive that every pass skipped could end up in no logical line"
-                      % (kinds2[0] if kinds2 else "directive", extra), where="%s:%d" % (pf.file, pf.line), instance={"line_type": kinds2, "extra_conditions": extra})
-        guards = sorted(c.callee.split("::")[-1] for c in pf.calls() if (c.callee or "").startswith(LANG + "ConditionalDirectiveKind::"))
-        rep.check(guards == ["is_else", "is_end", "is_if"], R, "directive-arms-guards", "parse_file's conditional-directive arms are guarded by %s" % guards, instance={"guards": guards})
-        # the filter excludes exactly the attributed directives
-        fl = [b for b in prog.closures_of(P + "parse_file") if any(c.callee == "std::collections::hash::set::HashSet::contains" for c in b.calls())]
-        ok = len(fl) == 1
-        if ok:
-            t = Table(prog, fl[0])
-            ok = all((res.kind == "sym" and str(res.a).startswith("!")) or (res.kind == "const") for _, res in t.rows) and len(t.rows) == 1
-        rep.check(ok, R, "directive-filter=!attributed", "parse_file no longer filters the directive pass by `!attributed_directives.contains(index)`")
-        # each created line holds exactly the token under consideration
-        good = 0
-        for bb, i, s in pf.stmts():
-            if s["k"] == "assign" and s["rv"]["k"] == "aggregate" and norm(s["rv"].get("adt", "")) == P + "LocalLogicalLine":
-                ops = dict(zip(s["rv"]["fields"], s["rv"]["ops"]))
-                c = canon(pf, ops["tokens"])
-                if "token_index" in c or "into_vec" in c or "from_elem" in c or "box" in c.lower():
-                    good += 1
-        rep.floor(R, "directive lines built from the current token index", good, 4)
+        directive_pass_table(prog, rep, R, pf)
     # ---------------------------------------------------------------- C14.c partition of conditional directive kinds
     R = "C14.c"
     tabs = {}
